@@ -68,7 +68,7 @@ theorem C04_clear_empties_same_kind (fuel : Nat) (f : Flags) (path : Path) (root
         .ok (.comp cf ck [], false, some (setNodeAt root path (.comp cf ck []))) ∧
       getNode (setNodeAt root path (.comp cf ck [])) path = some (.comp cf ck []) ∧
       native (.comp cf ck []) = (if ck.isDictFam then .dict [] else .list []) := by
-  refine ⟨by simp only [premergeF, h], getNode_setNodeAt _ path root _ h, ?_⟩
+  refine ⟨by simp only [premergeF, h], c04_getNode_setNodeAt _ path root _ h, ?_⟩
   cases hk : ck.isDictFam <;> simp [native, hk, nativeList, nativeVals]
 
 example : getNode (.comp {} .dict [(.str "a", .comp {} .dict c04Pcs)]) [.str "a", .str "r"] =
@@ -114,8 +114,8 @@ theorem C04_del_exact (rec : Node → Node → Except Err (Node × Bool)) (sf of
       match maybePromote (replaceOtherFlags of sf) ok ocs (.comp sf sk []) with
       | .error e => .error e
       | .ok (res, same) => .ok (res, !same) := by
-  rw [compMerge_del_emptied rec hdel hprio (filterNode_noneKept_comp _ [] hwf hnone),
-    reqNew_root_excepted _ hnew]
+  rw [c04_compMerge_del_emptied rec hdel hprio (c04_filterNode_noneKept_comp _ [] hwf hnone),
+    c04_reqNew_root_excepted _ hnew]
   rfl
 
 example : wfKeys (.comp {} .dict c04Scs) = true ∧ eDel c04O = true ∧
@@ -138,9 +138,9 @@ theorem C04_del_exact_plain (rec : Node → Node → Except Err (Node × Bool)) 
   refine ⟨?_, native_comp_flags _ _ _ _⟩
   rw [C04_del_exact rec sf of sk ok scs ocs hwf hdel hprio hnone hnew]
   rcases hsk with h | h | h
-  · rw [maybePromote_emptied_plain _ _ _ _ _ (.inl h)]; rfl
-  · rw [maybePromote_emptied_plain _ _ _ _ _ (.inr h)]; rfl
-  · rw [maybePromote_emptied_same _ _ _ _ _ h]; rfl
+  · rw [c04_maybePromote_emptied_plain _ _ _ _ _ (.inl h)]; rfl
+  · rw [c04_maybePromote_emptied_plain _ _ _ _ _ (.inr h)]; rfl
+  · rw [c04_maybePromote_emptied_same _ _ _ _ _ h]; rfl
 
 example := C04_del_exact_plain (mergeF 0) {} c04O.flags .dict .dict c04Scs c04O.children
   (.inl rfl) (by decide) (by decide) (by decide) (by decide) (by decide)
@@ -162,8 +162,8 @@ theorem C04_del_exact_prio (fuel : Nat) (b : Int) (sf of : Flags) (sk ok : CompK
       merge (.comp sf sk scs) (.comp of ok ocs) = .ok (.comp (replaceOtherFlags of sf) ok ocs) := by
   have hle' : ePrio sf ≤ b ∧ prioLeList b scs = true := by simpa [prioLe] using hle
   have hge' : b ≤ ePrio of ∧ prioGeList b ocs = true := by simpa [prioGe] using hge
-  have hprio : hasPrio of sf true = true := hasPrio_true_of_ge (by omega)
-  have hnone := noneKeptList_of_prio hge [] scs hle'.2
+  have hprio : hasPrio of sf true = true := c04_hasPrio_true_of_ge (by omega)
+  have hnone := c04_noneKeptList_of_prio hge [] scs hle'.2
   have main : ∀ rec, compMerge rec sf sk scs (.comp of ok ocs) =
       .ok (.comp (replaceOtherFlags of sf) ok ocs, false) := fun rec =>
     (C04_del_exact_plain rec sf of sk ok scs ocs
@@ -175,9 +175,9 @@ theorem C04_del_exact_prio (fuel : Nat) (b : Int) (sf of : Flags) (sk ok : CompK
     · subst h; exact main _
     · subst h
       have hall : allKept (keepIfExists (.comp sf .list scs)) [] (.comp of ok ocs) = true :=
-        allKept_of_prio hle [] _ hge
+        c04_allKept_of_prio hle [] _ hge
       simp only [mergeF, listMerge, hdel, Bool.not_true, Bool.and_false, Bool.false_and,
-        Bool.false_eq_true, if_false, filterNode_allKept _ [] _ hall]
+        Bool.false_eq_true, if_false, c04_filterNode_allKept _ [] _ hall]
       exact main _
   refine ⟨hm fuel, ?_⟩
   simp only [merge, hm]
@@ -207,7 +207,7 @@ theorem C04_del_exact_notnew (rec : Node → Node → Except Err (Node × Bool))
     (hnew : reqNew ([] :: (filterNode (maybeKeep (.comp of ok ocs)) [] (.comp sf sk scs)).2) []
       (.comp of ok ocs) = some p) :
     compMerge rec sf sk scs (.comp of ok ocs) = .error (.notnew p) := by
-  rw [compMerge_del_emptied rec hdel hprio (filterNode_noneKept_comp _ [] hwf hnone), hnew]
+  rw [c04_compMerge_del_emptied rec hdel hprio (c04_filterNode_noneKept_comp _ [] hwf hnone), hnew]
 
 -- `{p: 1}` ← `!del {n: !notnew 2}`: the new key `n` is refused
 example : reqNew ([] :: (filterNode (maybeKeep (.comp { del := some true } .dict
@@ -232,8 +232,8 @@ theorem C04_del_protected_dict (rec : Node → Node → Except Err (Node × Bool
       match mergeLoop rec sf sk (keptChildren (maybeKeep (.comp of ok ocs)) [] scs) ocs with
       | .error e => .error e
       | .ok scs' => finishMerge sf sk scs' (.comp of ok ocs) := by
-  refine ⟨filterNode_dict_kept _ _ sf sk scs hsk hn, ?_⟩
-  rw [compMerge_del_dict rec hdel hsk hn]
+  refine ⟨c04_filterNode_dict_kept _ _ sf sk scs hsk hn, ?_⟩
+  rw [c04_compMerge_del_dict rec hdel hsk hn]
   have : ((keptChildren (maybeKeep (.comp of ok ocs)) [] scs).isEmpty && hasPrio of sf true) = false := by
     rcases hkept with h | h
     · cases hc : keptChildren (maybeKeep (.comp of ok ocs)) [] scs with
@@ -261,7 +261,7 @@ theorem C04_del_protected_keys (o : Node) (scs : List (Key × Node)) (hn : keysN
       ∃ c, alookup k scs = some c ∧
         (maybeKeep o [k] c = true ∨
           (c.isComp = true ∧ (filterNode (maybeKeep o) [k] c).1.children ≠ [])) := by
-  simpa using mem_akeys_keptChildren (maybeKeep o) [] k scs hn
+  simpa using c04_mem_akeys_keptChildren (maybeKeep o) [] k scs hn
 
 example : maybeKeep c04O [.str "p"] (.leaf { prio := some 1 } (.scalar (.int 1))) = true := by decide
 example : maybeKeep c04O [.str "q"] (.comp {} .dict []) = false := by decide
@@ -302,7 +302,7 @@ theorem C04_del_unprotected_emptied (o : Node) (pre : Path) (f : Flags) (k : Com
     (cs : List (Key × Node)) (hwf : wfKeys (.comp f k cs) = true)
     (hnone : noneKeptList (maybeKeep o) pre cs = true) :
     (filterNode (maybeKeep o) pre (.comp f k cs)).1 = .comp f k [] :=
-  filterNode_noneKept_comp _ pre hwf hnone
+  c04_filterNode_noneKept_comp _ pre hwf hnone
 
 example : noneKeptList (maybeKeep c04O) [.str "r"] [(.int 0, .leaf { iDel := some true } (.scalar (.int 4)))] = true := by
   decide
@@ -334,7 +334,7 @@ theorem C04_merge_step_keys (rec : Node → Node → Except Err (Node × Bool)) 
     akeys acc' =
       if stepRemoves rec sk acc kv then (akeys acc).erase kv.1
       else if kv.1 ∈ akeys acc then akeys acc else akeys acc ++ [kv.1] :=
-  mergeStep_keys rec hsk h
+  c04_mergeStep_keys rec hsk h
 
 example : ∃ acc', mergeStep (mergeF 2) {} .dict c04Scs (.str "n", .leaf {} (.scalar (.int 2))) = .ok acc' :=
   ⟨_, rfl⟩
@@ -353,8 +353,8 @@ theorem C04_merge_keys (fuel : Nat) (sf of : Flags) (scs ocs : List (Key × Node
   | error e => simp [hl] at h
   | ok scs' =>
     simp only [hl] at h
-    obtain ⟨h1, h2⟩ := finishMerge_dict_keys sf of scs' ocs r s h
-    rw [h1, mergeLoop_keys (mergeF fuel) (mergeF_delFaithful fuel) rfl ocs scs scs' hnd hl]
+    obtain ⟨h1, h2⟩ := c04_finishMerge_dict_keys sf of scs' ocs r s h
+    rw [h1, c04_mergeLoop_keys (mergeF fuel) (c04_mergeF_delFaithful fuel) rfl ocs scs scs' hnd hl]
     exact ⟨rfl, h2⟩
 
 example : noExplicitDel c04M.children = true := by decide
@@ -373,7 +373,7 @@ theorem C04_merge_common (fuel : Nat) (sf : Flags) (sk : CompKind) (hsk : sk.isD
       alookup k scs' = some (if same then nw else adopt sf sk nw) ∧
       (alookup k scs').map native = some (native nw) := by
   obtain ⟨nw, same, h1, h2⟩ :=
-    mergeLoop_common (mergeF fuel) (mergeF_delFaithful fuel) hsk ocs scs scs' hnd hn h k c v hc hv
+    c04_mergeLoop_common (mergeF fuel) (c04_mergeF_delFaithful fuel) hsk ocs scs scs' hnd hn h k c v hc hv
   refine ⟨nw, same, h1, h2, ?_⟩
   rw [h2]
   cases same <;> simp [native_adopt]
@@ -404,11 +404,11 @@ theorem C04_merge_indexwise (fuel : Nat) (sf : Flags) (sk : CompKind) (hsk : sk.
           alookup (.int (i : Int)) scs' = some (if same then nw else adopt sf sk nw)
       else alookup (.int (i : Int)) scs' = some (adopt sf sk v)) ∧
     (∀ i : Nat, ocs.length ≤ i → alookup (.int (i : Int)) scs' = alookup (.int (i : Int)) scs) := by
-  obtain ⟨r1, r2, r3, r4⟩ := c04_mergeLoop_list (mergeF fuel) (mergeF_delFaithful fuel) hsk ocs 0 scs scs'
+  obtain ⟨r1, r2, r3, r4⟩ := c04_mergeLoop_list (mergeF fuel) (c04_mergeF_delFaithful fuel) hsk ocs 0 scs scs'
     hks hko (Nat.zero_le _) hnd h
   refine ⟨r1, by simpa using r2, r4, ?_⟩
   intro i hi
-  exact r3 i (listKeys_lookup_none 0 ocs i hko (.inr (by omega)))
+  exact r3 i (c04_listKeys_lookup_none 0 ocs i hko (.inr (by omega)))
 
 example : ∃ scs', mergeLoop (mergeF 1) {} .list
     [(.int 0, .leaf { iDel := some true } (.scalar (.int 1))), (.int 1, .leaf { iDel := some true } (.scalar (.int 2)))]
@@ -437,7 +437,7 @@ theorem C04_del_null_removes_key (fuel : Nat) (sf : Flags) (sk : CompKind) (acc 
       (sk.isDictFam = true → keysNodup acc = true →
         removeChildE sf sk k acc = .ok (aerase k acc) ∧ alookup k (aerase k acc) = none) := by
   constructor
-  · apply mergeStep_leaf_removed (mergeF (fuel + 1)) sf sk acc k (.leaf vf vk) (.leaf cf ck)
+  · apply c04_mergeStep_leaf_removed (mergeF (fuel + 1)) sf sk acc k (.leaf vf vk) (.leaf cf ck)
       (.leaf (replaceOtherFlags vf cf) vk) hget rfl
     · simp [mergeF, leafRule, Node.flags, hwins, Node.setFlags]
     · rfl
@@ -445,8 +445,8 @@ theorem C04_del_null_removes_key (fuel : Nat) (sf : Flags) (sk : CompKind) (acc 
     · simpa [Node.flags, replaceOtherFlags, mergeSafe] using hdel
   · intro hsk hn
     have hsome : (alookup k acc).isSome = true := by
-      rw [getChild_dict hsk] at hget; simp [hget]
-    exact ⟨removeChildE_dictFam hsk k acc hsome, alookup_aerase_self k acc hn⟩
+      rw [c04_getChild_dict hsk] at hget; simp [hget]
+    exact ⟨c04_removeChildE_dictFam hsk k acc hsome, c04_alookup_aerase_self k acc hn⟩
 
 example : getChild .dict (.str "p") c04Scs = some (.leaf {} (.scalar (.int 1))) := rfl
 example : (LeafKind.scalar .null).truthy = false ∧
@@ -468,15 +468,15 @@ theorem C04_del_empty_container_removes_key (fuel : Nat) (sf : Flags) (sk : Comp
     (hdel : vf.del = some true) (hvk : vk.isFunc = false)
     (hle : prioLe (ePrio vf) (.comp cf ck ccs) = true) :
     mergeStep (mergeF (fuel + 2)) sf sk acc (k, .comp vf vk []) = removeChildE sf sk k acc := by
-  have hd : eDel (.comp vf vk []) = true := eDel_of_explicit hdel
+  have hd : eDel (.comp vf vk []) = true := c04_eDel_of_explicit hdel
   have hm := (C04_del_exact_prio fuel (ePrio vf) cf vf ck vk ccs [] hck hwf hd hle
-    (prioGe_empty vf vk) rfl).1
-  apply mergeStep_comp_removed (mergeF (fuel + 2)) sf sk acc k (.comp vf vk []) (.comp cf ck ccs)
+    (c04_prioGe_empty vf vk) rfl).1
+  apply c04_mergeStep_comp_removed (mergeF (fuel + 2)) sf sk acc k (.comp vf vk []) (.comp cf ck ccs)
     (.comp (replaceOtherFlags vf cf) vk []) false hget rfl
   · exact C04_del_exact_prio (fuel + 1) (ePrio vf) cf vf ck vk ccs [] hck hwf hd hle
-      (prioGe_empty vf vk) rfl |>.1
+      (c04_prioGe_empty vf vk) rfl |>.1
   · simp [Node.truthy, hvk]
-  · exact hasPrio_false_of_le (by simp [Node.flags, ePrio, replaceOtherFlags, mergeSafe])
+  · exact c04_hasPrio_false_of_le (by simp [Node.flags, ePrio, replaceOtherFlags, mergeSafe])
   · exact hdel
 
 example : getChild .dict (.str "q") c04Scs = some (.comp {} .dict [(.str "z", .leaf {} (.scalar (.int 2)))]) := rfl
